@@ -128,24 +128,31 @@ def insertDelta (l : List Entry) (delay : Int) (c : Call) : List Entry :=
 /-- C: `(x) & (CALLOUT_CYCLE_SIZE - 1)` -/
 def slotOf (t : Nat) : Nat := t &&& (N - 1)
 
-/-- new_call_out; returns the handle -/
+/-- new_call_out; returns the handle.  The clamp, the initialisation of `call_out_time`, the slot, the rotation
+    count and the handle are the expressions *recovered from the C source* (NV/Gen/C10.lean, props/c10_extract.py),
+    evaluated in the order the statements have in the source (checked by the extractor). -/
 def newCallOut (w : World) (owner fn : Nat) (tag : String) (delay : Int) : World × Nat :=
-  let d : Int := if delay < 1 then 1 else delay
-  let cot := if w.cot = 0 then w.now else w.cot
-  let due : Int := d + (w.now : Int)
-  let tm := slotOf due.toNat
-  let rot : Int := 1 + Int.tdiv (due - (cot : Int) - 1) (N : Int)
+  let d : Int := Gen.C10.clampDelay delay
+  let cot : Nat := (Gen.C10.initCot w.cot w.now).toNat
+  let tm : Nat := (Gen.C10.slotExpr d w.now).toNat
+  let rot : Int := Gen.C10.rotExpr d w.now cot
   let uniq := w.unique + 1
-  let h := tm + N * uniq
-  let c : Call := { serial := uniq, owner := owner, fn := fn, tag := tag, handle := h, due := due }
+  let h : Nat := (Gen.C10.handleExpr tm w.unique).toNat
+  let c : Call := { serial := uniq, owner := owner, fn := fn, tag := tag, handle := h, due := d + (w.now : Int) }
   let w1 := { w with cot := cot, unique := uniq }
   (setSlot w1 tm (insertDelta (w1.slots tm) rot c), h)
 
-/-- time_left(slot, delay) -/
+/-- time_left(slot, delay): the generated expressions of both branches -/
 def timeLeft (w : World) (slot : Nat) (delay : Int) : Int :=
-  let cur := slotOf w.cot
-  if slot > cur then (delay - 1) * (N : Int) + ((slot : Int) - (cur : Int)) + (w.cot : Int) - (w.now : Int)
-  else delay * (N : Int) + ((slot : Int) - (cur : Int)) + (w.cot : Int) - (w.now : Int)
+  let cur := Gen.C10.curSlotExpr w.cot
+  if Gen.C10.timeLeftCond slot cur then Gen.C10.timeLeftThen delay slot cur w.cot w.now
+  else Gen.C10.timeLeftElse delay slot cur w.cot w.now
+
+/-- the copy of time_left that get_all_call_outs carries inline (its own generated expressions) -/
+def infoTimeLeft (w : World) (j : Nat) (delay : Int) : Int :=
+  let tm := Gen.C10.infoSlotExpr w.cot
+  if Gen.C10.infoCond j tm then Gen.C10.infoThen delay j tm w.cot w.now
+  else Gen.C10.infoElse delay j tm w.cot w.now
 
 /-- search one list for the first entry satisfying `p`; returns (cumulative delta, list without it) -/
 def removeFirst (p : Call → Bool) (l : List Entry) (acc : Int) : Option (Int × List Entry) :=
@@ -225,9 +232,9 @@ def infoRowsList (w : World) (j : Nat) : List Entry → Int → List (Nat × Nat
     let d := acc + x.delta
     let rest := infoRowsList w j xs d
     if w.dead.contains x.c.owner then rest
-    else (x.c.owner, x.c.fn, timeLeft w j d) :: rest
+    else (x.c.owner, x.c.fn, infoTimeLeft w j d) :: rest
 
-/-- get_all_call_outs (the C code repeats the body of time_left inline) -/
+/-- get_all_call_outs -/
 def infoRows (w : World) : List (Nat × Nat × Int) :=
   (List.range N).flatMap (fun j => infoRowsList w j (w.slots j) 0)
 
@@ -307,20 +314,24 @@ def visit (sc : Scripts) (tm : Nat) : Nat → World → World
       | [] => w
       | h :: _ => if h.delta == 0 then visit sc tm fuel w else w
 
-/-- one second of call_out(): `cot` is advanced *before* the slot is visited (fix: C10) -/
+/-- one second of call_out().  The position of `call_out_time++` relative to `tm = ...` and to the visit of the
+    slot, and the slot expression, are recovered from the source (fix C10: the increment comes first). -/
 def sweepSecond (sc : Scripts) (w : World) : World :=
-  let tm := slotOf (w.cot + 1)
-  let w := { w with cot := w.cot + 1 }
-  match w.slots tm with
-  | [] => w
-  | h :: rest =>
-    let h' := { h with delta := h.delta - 1 }
-    let w := setSlot w tm (h' :: rest)
-    if h'.delta == 0 then visit sc tm ((w.slots tm).length) w else w
+  let cotTm := if Gen.C10.sweepIncBeforeSlot then w.cot + 1 else w.cot
+  let tm : Nat := (Gen.C10.sweepSlotExpr cotTm).toNat
+  let w := if Gen.C10.sweepIncBeforeVisit then { w with cot := w.cot + 1 } else w
+  let w :=
+    match w.slots tm with
+    | [] => w
+    | h :: rest =>
+      let h' := { h with delta := h.delta - 1 }
+      let w := setSlot w tm (h' :: rest)
+      if h'.delta == 0 then visit sc tm ((w.slots tm).length) w else w
+  if Gen.C10.sweepIncBeforeVisit then w else { w with cot := w.cot + 1 }
 
 def sweepLoop (sc : Scripts) : Nat → World → World
   | 0, w => w
-  | fuel + 1, w => if w.cot < w.now then sweepLoop sc fuel (sweepSecond sc w) else w
+  | fuel + 1, w => if Gen.C10.sweepCond w.cot w.now then sweepLoop sc fuel (sweepSecond sc w) else w
 
 /-- call_out(): `while (call_out_time < current_time)` -/
 def sweep (sc : Scripts) (w : World) : World :=
